@@ -179,10 +179,17 @@ def run(ctx):
                            "points are created with m = %s and %d later stores to m" % (sorted(set(absint.term_str(c) for c in created)), len(mstores)),
                            site=site, key="C03.absent|%s" % name)
                 elif multi:
+                    from .. import fcmp
                     ms = [r_ for r_, b in R.bind.items() if b == 'm']
-                    ok = bool(ms) and all(R.normalised.get(r_) for r_ in ms)
+                    tabs = [fcmp.normaliser_table(F, util, R.normalised.get(r_)) if R.normalised.get(r_) else None for r_ in ms]
+                    ok = bool(ms) and all(tb is not None and fcmp.normaliser_ok(tb) for tb in tabs)
                     ctx.ob("C03.absent", "%s present measures normalised" % name, ok,
-                           "%d measure reads, all through max(v, NO_DATA): %s" % (len(ms), ok), site=site, key="C03.nodata|%s" % name)
+                           "%d measure reads; normaliser over (<, =, >, NaN): %s" % (len(ms), tabs[:1]), site=site, key="C03.nodata|%s" % name)
+                if R is not None:
+                    boxes = [(b, R.normalised.get(r_)) for r_, b in R.bind.items() if b.startswith('box.') and R.normalised.get(r_)]
+                    ctx.ob("C03.lenient", "%s %s: stored box returned as stored" % (name, variant), not boxes,
+                           "box values transformed on the way in: %s" % boxes if boxes else "every box value is stored exactly as read",
+                           site=site, key="C03.lenient|box-raw|%s" % name)
     # --- dispatch -------------------------------------------------------------------------------
     f = F.impl_method("record::ReadableShape", "record::Shape", "read_from")
     if f:
